@@ -16,7 +16,12 @@
        ffi_fetch_int_constant            src/c/ffi_obj.c:96
        lib_build_and_cache_attr          src/c/lib_obj.c:208  (delegation part)
    all three are the same depth-first search with the recursion cap 100; [dfs] below keeps the
-   loop / recursion structure of the C code. *)
+   loop / recursion structure of the C code.  What differs between the three in the source (the guards in
+   front of the loop, the increment, the tuple passed down, the miss action, the flag test) is regenerated
+   per function into C34/Gen.v and read by [dfsG] / [struct_ownG] (Part B' below); that these equal [dfs] /
+   [struct_own] on the current source is C34_regenerated_searches_are_the_model.  Not in the rows (fixed text of
+   the translator's templates, an edit there is a broken obligation): lib_obj tests included_libs, looks into
+   lib1->l_dict first, returns NULL after PyErr_Occurred(), and returns quietly when recursion > 0. *)
 From Coq Require Import NArith ZArith List Bool Arith.
 From Cffi Require Import C34.Gen.
 Import ListNotations.
